@@ -227,7 +227,7 @@ def h_scalar_types(env, cls):
     import numpy as np
     from symx import shim
     scalars = [np.uint8(3), np.uint32(2), np.int8(-2), np.int64(5), np.float32(0.5), np.float64(-1.25), np.complex64(1 + 2j),
-               np.complex128(0.5 - 1j), 2, 1.5, (1 + 1j), True]
+               np.complex128(0.5 - 1j), 2, 1.5, (1 + 1j), True, 0, 0.0]
     ops = {"+": O.add, "-": O.sub, "*": O.mul, "/": O.truediv, "s+": lambda a, s_: s_ + a, "s-": lambda a, s_: s_ - a, "s*": lambda a, s_: s_ * a,
            "+=": O.iadd, "-=": O.isub, "*=": O.imul, "/=": O.itruediv}
     words = {"F": [((1, 1), (0, 0)), ((2, 1), (2, 0))], "Q": [((0, "X"), (1, "Y")), ((2, "Z"),)]}["F" if cls.startswith("F") else "Q"]
@@ -253,6 +253,8 @@ def h_scalar_types(env, cls):
                 a = _new(cls)
                 a.terms = {words[0]: 0.5, words[1]: -1.5}
                 t0 = dict(a.terms)
+                if on in ("/", "/=") and not s_:
+                    continue
                 try:
                     r = f(a, s_)
                 except Exception as e:          # noqa
@@ -264,6 +266,24 @@ def h_scalar_types(env, cls):
                     bad.append((on, type(s_).__name__, "wrong value", got, want))
                 if not on.endswith("=") and dict(a.terms) != t0:
                     bad.append((on, type(s_).__name__, "operand changed"))
+                if not on.endswith("="):
+                    # the result is a new object: in-place arithmetic on it does not reach the operand (sum() starts with 0 + op)
+                    r *= 3
+                    r += 1
+                    if dict(a.terms) != t0:
+                        bad.append((on, repr(s_), "in-place arithmetic on the RESULT changed the operand"))
+        # equality after chains that leave explicit zero coefficients / re-create the same operator
+        a = _new(cls)
+        a.terms = {words[0]: 0.5, words[1]: -1.5}
+        same = [("(a + 2) - 2", lambda: (a + 2) - 2), ("1 - (1 - a)", lambda: 1 - (1 - a)), ("(a - 2.5) + 2.5", lambda: (a - 2.5) + 2.5),
+                ("a * 0. + a", lambda: a * 0. + a), ("(a * 2) / 2", lambda: (a * 2) / 2)]
+        for nm_, mk_ in same:
+            try:
+                b_ = mk_()
+                if not (b_ == a) or (b_ != a) or not (a == b_):
+                    bad.append(("==", nm_, "algebraically identical operators compare unequal"))
+            except Exception as e:          # noqa
+                bad.append(("==", nm_, f"{type(e).__name__}: {e}"[:80]))
     env.check_true(not bad, f"{NAMES[cls]}: arithmetic with every numeric scalar type gives the reference value", detail=str(bad[:4]))
 
 
